@@ -146,6 +146,22 @@ Definition heads2 (fn : pfn2) (s : string) (rtab : list (string * (val * bool)))
   flat_map (fun p => match p with SKey k :: _ => [k] | _ => [] end)
            (names_of (mode_of fn) (rdr_of_table rtab) (jdec_of_table jdec) s).
 
+(* the two transcriptions of the parsers agree (round 4): every case of the first model is
+   evaluated by the second one too — files as a callback table, the same decode table *)
+Definition pfn2_of (fn : pfn) : pfn2 :=
+  match fn with PInto => P2Into | PIntoString => P2IntoString | PJson => P2Json | PLiteral => P2Literal | PFile => P2File end.
+
+Definition pres_agree (a b : pres) : bool :=
+  match a, b with
+  | POk x, POk y => val_equiv_b (VMap x) (VMap y)
+  | PErr _, PErr _ => true
+  | _, _ => false
+  end.
+
+Definition models_agree (fn : pfn) (s : string) (dest : vmap) (files : list (string * string)) (jdec : list (nat * (val * nat))) : bool :=
+  pres_agree (parse_model fn s dest files jdec)
+             (parse_model2 (pfn2_of fn) s dest (map (fun kv => (fst kv, (VStr (snd kv), true))) files) jdec).
+
 Definition case_ok (c : case) : bool :=
   match c with
   | CParse2 fn s dest rtab jdec onames obs =>
@@ -163,6 +179,7 @@ Definition case_ok (c : case) : bool :=
       | PFuel => false
       end
   | CParse fn s dest files jdec obs =>
+      models_agree fn s dest files jdec &&
       match parse_model fn s dest files jdec, obs with
       | POk d, ROk v => val_equiv_b (VMap d) v
       | PErr d', RErrD after =>
